@@ -14,6 +14,7 @@ use crate::oracle::*;
 use crate::plan::*;
 use crate::report::*;
 use crate::rng::{mix, Rng};
+#[allow(unused_imports)]
 use crate::sys::Pool;
 
 pub const POOL_SIZES: [usize; 7] = [1, 2, 3, 4, 8, 16, 16];
